@@ -334,7 +334,7 @@ def flux_bindown(ix, R):
     for c in conts:
         g = c.guards[-1] if c.guards else None
         want_g = spec(fl, 'not (wmin <= omax[s]) or not (omin[e] <= wmax)', dict(b, e=win.hi - 1))
-        if g is None or not g.positive or not tab.equal(g.rf, want_g):
+        if g is None or not guard_is(fl, g, want_g, True):
             whyc.append('bin skipped under %s' % (g.text() if g else 'no guard'))
     R.check('3b.skip', 'GUARD', site,
             'a target bin is skipped only when it does not overlap the native window at all',
